@@ -1,8 +1,9 @@
-//@unit name=evalneg props=C05
+//@unit name=evalneg props=C05,C16
 //@strip-pub
 // Unit `evalneg`: the negatable predicates of ExpressionEvaluator::evaluate -- IS [NOT] NULL,
 // [NOT] BETWEEN, [NOT] IN (list) -- and string_like (C05: predicates follow three-valued logic).
-// Each arm of the big `match` is checked as a function of its own (R11).
+// Each arm of the big `match` is checked as a function of its own (R11).  The three subquery arms
+// (not implemented by the engine) must be ordinary errors of the statement, not panics (C16).
 //   IS [NOT] NULL is two-valued and negation flips it; BETWEEN / IN / LIKE: a NULL operand (for IN
 //   also a miss against a list containing NULL) gives NULL, otherwise negation flips the verdict.
 //@trusted [env] self.evaluate(sub-expression) is abstract (val(e)); DataType comparison (>=, <=: C19 unit types) and HashSet<DataType> (insert / contains by the DataType equality of C19) are abstract; Blob::like is abstract
@@ -125,6 +126,26 @@ impl ExpressionEvaluator {
 //@ loop 1
 //@   invariant
 //@     set.view() == list_vals(list@, it.index@ as int),
+//@end
+//@fn crates/axmos-db/src/runtime/eval.rs | impl<'a> ExpressionEvaluator<'a> | evaluate
+//@ arm /BoundExpression::Exists \{ query, negated \} => \{/ => fn exists_arm(&self) -> EvaluationResult<Vec<DataType>>
+//@ sub /"([^"]*)"\.to_string\(\)/ => msg("\1")
+//@ ensures
+//@   [C16,C05:subquery.exists_is_an_error_not_a_panic] r is Err,
+//@end
+
+//@fn crates/axmos-db/src/runtime/eval.rs | impl<'a> ExpressionEvaluator<'a> | evaluate
+//@ arm /BoundExpression::Subquery \{ query, result_type \} => \{/ => fn scalar_subquery_arm(&self) -> EvaluationResult<Vec<DataType>>
+//@ sub /"([^"]*)"\.to_string\(\)/ => msg("\1")
+//@ ensures
+//@   [C16,C05:subquery.scalar_is_an_error_not_a_panic] r is Err,
+//@end
+
+//@fn crates/axmos-db/src/runtime/eval.rs | impl<'a> ExpressionEvaluator<'a> | evaluate
+//@ arm /BoundExpression::InSubquery \{\s*expr,\s*query,\s*negated,\s*\} => \{/ => fn in_subquery_arm(&self) -> EvaluationResult<Vec<DataType>>
+//@ sub /"([^"]*)"\.to_string\(\)/ => msg("\1")
+//@ ensures
+//@   [C16,C05:subquery.in_is_an_error_not_a_panic] r is Err,
 //@end
 }
 
